@@ -345,6 +345,10 @@ func (dr *dirRepo) blobMeta(d digest.Digest, locked bool) (blobMeta, error) {
 
 // BlobCreate is used to create a new blob.
 func (dr *dirRepo) BlobCreate(opts ...BlobOpt) (BlobCreator, string, error) {
+	return dr.blobCreate(false, opts...)
+}
+
+func (dr *dirRepo) blobCreate(locked bool, opts ...BlobOpt) (BlobCreator, string, error) {
 	if *dr.conf.Storage.ReadOnly {
 		return nil, "", types.ErrReadOnly
 	}
@@ -358,7 +362,7 @@ func (dr *dirRepo) BlobCreate(opts ...BlobOpt) (BlobCreator, string, error) {
 		}
 	}
 	if !dr.exists {
-		err := dr.repoInit(false)
+		err := dr.repoInit(locked)
 		if err != nil {
 			return nil, "", err
 		}
@@ -379,8 +383,10 @@ func (dr *dirRepo) BlobCreate(opts ...BlobOpt) (BlobCreator, string, error) {
 			return nil, "", types.ErrBlobExists
 		}
 	}
-	dr.mu.Lock()
-	defer dr.mu.Unlock()
+	if !locked {
+		dr.mu.Lock()
+		defer dr.mu.Unlock()
+	}
 	sessionID, err := genSessionID()
 	if err != nil {
 		return nil, "", fmt.Errorf("failed generating sessionID: %w", err)
